@@ -98,8 +98,11 @@ def run_case(c):
     av = dut.av
     inc = c.get("burst_increment", 1)
     off = c["base"] // avb
-    span = 1 << (aw_port + (pb.bit_length() - 1) - (avb.bit_length() - 1) - 1)
-    hot = [r.randrange(span - 64) for _ in range(4)]
+    span = 1 << (aw_port + (pb.bit_length() - 1) - (avb.bit_length() - 1))       # the whole port, top address bit included
+    hot = [r.randrange(span - 400) for _ in range(4)]
+    # one hot spot just below a 4 KiB boundary and one just below a 2^16-word boundary (bursts that carry into upper bits)
+    hot[1] = min(span - 400, ((hot[1] >> 10) << 10) + (4096 // avb) - r.randrange(1, 12))
+    hot[2] = min(span - 400, ((hot[2] >> 16) << 16) + (1 << 16) - r.randrange(1, 12)) if span > (1 << 17) else hot[2]
     model = {}
     res = dict(v=[], done=0, wbursts=0, rbursts=0, stalled=0, gaps_used=0, beats_w=0, beats_r=0)
     state = dict(done=False)
